@@ -152,17 +152,27 @@ pub fn build_function_parameters_refs(
     type_sizes: &TypeSizeMap,
 ) -> Result<StatementRefs, ReferencesError> {
     let mut refs = StatementRefs::default();
-    let mut offset = -3_i16;
+    // The offset of the last cell of the current parameter, tracked as `i32` as it may go below
+    // `i16::MIN` after the last parameter that still fits the frame.
+    let mut offset = -3_i32;
     for (param_idx, param) in func.params.iter().rev().enumerate() {
-        let size = type_sizes
-            .get(&param.ty)
-            .ok_or_else(|| ReferencesError::UnknownType(param.ty.clone()))?;
+        let size = i32::from(
+            *type_sizes
+                .get(&param.ty)
+                .ok_or_else(|| ReferencesError::UnknownType(param.ty.clone()))?,
+        );
+        // The cells of the parameter are `[fp + start], .., [fp + end - 1]` - all must be
+        // addressable by an `i16` offset.
+        let (Ok(start), Ok(end)) = (i16::try_from(offset - size + 1), i16::try_from(offset + 1))
+        else {
+            return Err(ReferencesError::InvalidFunctionDeclaration(func.clone()));
+        };
         if refs
             .insert(
                 param.id.clone(),
                 ReferenceValue {
                     expression: ReferenceExpression {
-                        cells: ((offset - size + 1)..(offset + 1))
+                        cells: (start..end)
                             .map(|i| CellExpression::Deref(cell_ref!([fp + i])))
                             .collect(),
                     },
